@@ -151,12 +151,17 @@ DecJson(w) ==
    proof |-> IF has("proof") THEN (IF "rsig" \in w.proofkeys THEN "sig" ELSE "nosig") ELSE "none"]
 
 \* ---------------------------------------------------------- V4 binary -----
-(* SlateOptFields::write: the first status byte.  NOTE bit 0x04 tests
-   fee.fee() > 0, the fee masked to its low 40 bits, not FeeFields::is_zero. *)
+(* SlateOptFields::write: the first status byte.  NOTE at the pinned commit bit
+   0x04 tests fee.fee() > 0, the fee masked to its low 40 bits, not
+   FeeFields::is_zero.  fixes/C08-1.patch changes the test to !fee.is_zero():
+   when that patch is in /repo set BinFeeTestMasked to FALSE (until then Layer M
+   reports the difference as NONCONFORMANCE on fee = 2^40, nothing else changes). *)
+BinFeeTestMasked == TRUE
+BinFeePresent(t) == IF BinFeeTestMasked THEN ~FeeLowZero(t) ELSE ~IsZero(t)
 BinStatus(v) ==
      (IF v.np # 2 THEN {"np"} ELSE {})
   \cup (IF ~IsZero(v.amt) THEN {"amt"} ELSE {})
-  \cup (IF ~FeeLowZero(v.fee) THEN {"fee"} ELSE {})
+  \cup (IF BinFeePresent(v.fee) THEN {"fee"} ELSE {})
   \cup (IF v.feat > 0 THEN {"feat"} ELSE {})
   \cup (IF ~IsZero(v.ttl) THEN {"ttl"} ELSE {})
 \* SlateOptStructsRef::write: the second status byte
